@@ -1,27 +1,28 @@
 #!/bin/bash
 # usage: lib/muttest.sh <patch.diff|none> <ID> [seed] [budget]   (development helper, not a registered check)
-# Applies the patch to the scratch worktree /tmp/mutrepo (moved to /repo's HEAD first), builds a private copy of
+# Applies the patch to the scratch worktree $R (moved to /repo's HEAD first), builds a private copy of
 # the harness against it (incremental), runs one monitor, and restores the worktree. The official way to run a
 # check against a seeded change is `git -C /repo apply <patch>; ./check ID; git -C /repo checkout -- .`; this
 # helper exists so that seeded changes can be tried while /repo itself is busy.
 set -u
 PATCH=$1; ID=$2; SEED=${3:-1}; BUDGET=${4:-120}
-H=/tmp/mh
+SLOT=${MUT_SLOT:-}; H=/tmp/mh$SLOT; R=/tmp/mutrepo$SLOT
+[ -d $R ] || git -C /repo worktree add -q --detach $R HEAD
 mkdir -p $H
-git -C /tmp/mutrepo reset -q --hard
-git -C /tmp/mutrepo checkout -q --detach "$(git -C /repo rev-parse HEAD)" 2>/dev/null
+git -C $R reset -q --hard
+git -C $R checkout -q --detach "$(git -C /repo rev-parse HEAD)" 2>/dev/null
 rsync -a --delete --exclude target /verif/harness/ $H/harness/
-sed -i "s|\"/repo/|\"/tmp/mutrepo/|g" $H/harness/gxv/Cargo.toml $H/harness/gxv-miri/Cargo.toml
-cp /tmp/mutrepo/Cargo.lock $H/harness/Cargo.lock
+sed -i "s|\"/repo/|\"$R/|g" $H/harness/gxv/Cargo.toml $H/harness/gxv-miri/Cargo.toml
+cp $R/Cargo.lock $H/harness/Cargo.lock
 if [ "$PATCH" != "none" ]; then
-  if ! git -C /tmp/mutrepo apply --3way "$PATCH" >/dev/null 2>&1; then
-    if ! git -C /tmp/mutrepo apply "$PATCH"; then echo "PATCH DOES NOT APPLY"; exit 2; fi
+  if ! git -C $R apply --3way "$PATCH" >/dev/null 2>&1; then
+    if ! git -C $R apply "$PATCH"; then echo "PATCH DOES NOT APPLY"; exit 2; fi
   fi
 fi
 cd $H/harness
-CARGO_NET_OFFLINE=true CARGO_TARGET_DIR=$H/target cargo build --offline --profile verif -p gxv > $H/build.log 2>&1 || { grep -E "^error" -A10 $H/build.log | head -30; echo "$ID RESULT build-failed"; git -C /tmp/mutrepo reset -q --hard; exit 2; }
+CARGO_NET_OFFLINE=true CARGO_TARGET_DIR=$H/target cargo build --offline --profile verif -p gxv > $H/build.log 2>&1 || { grep -E "^error" -A10 $H/build.log | head -30; echo "$ID RESULT build-failed"; git -C $R reset -q --hard; exit 2; }
 mkdir -p $H/replays
-GXV_REPO_PREFIX=/tmp/mutrepo/ GXV_REPLAY_DIR=$H/replays GXV_BUDGET_S=$BUDGET $H/target/verif/gxv $ID --tier quick --seed $SEED --out $H/$ID.json 2>$H/$ID.err
+GXV_REPO_PREFIX=$R/ GXV_REPLAY_DIR=$H/replays GXV_BUDGET_S=$BUDGET $H/target/verif/gxv $ID --tier quick --seed $SEED --out $H/$ID.json 2>$H/$ID.err
 python3 - <<PY
 import json
 d=json.load(open("$H/$ID.json"))
@@ -41,4 +42,4 @@ print("$ID RESULT new-violations", new)
 for i in d["inconclusive"]:
     print("  INCONCLUSIVE", i[:160])
 PY
-git -C /tmp/mutrepo reset -q --hard
+git -C $R reset -q --hard
